@@ -28,6 +28,8 @@ pub struct Avoid {
     pub missing_proto_method: bool,
     /// `...1`: spread of a literal that is not iterable
     pub spread_noniterable_literal: bool,
+    /// U+FEFF in the middle of (invalid) text: the dependency's diagnostic renderer panics
+    pub bom_midfile: bool,
     /// regular expression literal as operand / argument of an instrumented operation (executable programs only)
     pub regex_literal_operand: bool,
 }
@@ -125,7 +127,7 @@ const STRINGS: &[&str] = &[
 ];
 const NUMS: &[&str] = &["1", "0", "2", "10", "1.5", "0x10", "1e3"];
 const OTHER_LITS: &[&str] = &["null", "true", "false", "1n", "/re/g", "/a+b/", "undefined"];
-const PROPS: &[&str] = &["p", "q", "k", "length", "name"];
+const PROPS: &[&str] = &["p", "q", "k", "length", "name", "prototype"];
 const GLOBAL_VALS: &[&str] = &["g", "s", "o"];
 
 impl<'t, 'a> Gen<'t, 'a> {
@@ -163,6 +165,11 @@ impl<'t, 'a> Gen<'t, 'a> {
     // ---------------------------------------------------------------- leaves
 
     fn ident(&mut self) -> E {
+        // rarely an unresolvable reference: reading it throws, which makes evaluation order observable
+        if self.o.exec && self.t.chance(6) {
+            self.tag("unresolvable-ident");
+            return E::id("undeclaredIdent");
+        }
         let sc = self.sc();
         let n = sc.vars.len() + GLOBAL_VALS.len();
         let i = self.t.below(n);
@@ -309,7 +316,14 @@ impl<'t, 'a> Gen<'t, 'a> {
             }
             9 => {
                 let obj = self.receiver(d1);
-                let idx = self.expr(d1);
+                let idx = if self.t.chance(30) {
+                    self.tag("bare-sequence");
+                    let a = self.expr(d1.min(2));
+                    let b = self.expr(d1.min(2));
+                    E::Seq(vec![a, b])
+                } else {
+                    self.expr(d1)
+                };
                 E::Index { obj: obj.bx(), idx: idx.bx(), optional: false }
             }
             10 => {
@@ -491,6 +505,12 @@ impl<'t, 'a> Gen<'t, 'a> {
             let e = if self.t.chance(40) {
                 self.tag("tpl-literal-subst");
                 self.literal()
+            } else if self.t.chance(25) {
+                // `${a, b}`: a comma expression needs no parentheses here
+                self.tag("bare-sequence");
+                let a = self.expr(d.min(2));
+                let b = self.expr(d.min(2));
+                E::Seq(vec![a, b])
             } else {
                 self.expr(d)
             };
@@ -583,7 +603,30 @@ impl<'t, 'a> Gen<'t, 'a> {
         let m = self.method_name();
         let args = self.args(d);
         let p = self.t.pick(PROPS).to_string();
-        let e = match self.t.weighted(&[6, 3, 3, 2, 2, 2, 2, 2]) {
+        let base = if self.t.chance(12) {
+            self.tag("opt-chain-null-base");
+            E::raw(*self.t.pick(&["null", "undefined", "'lit'"]))
+        } else {
+            base
+        };
+        let e = match self.t.weighted(&[6, 3, 3, 2, 2, 2, 2, 2, 3, 2]) {
+            // a?.m(args).m2(args2): two configured calls in one chain
+            8 => {
+                let m2 = self.method_name();
+                let a2 = self.args(d.min(1));
+                self.tag("opt-chain-two-calls");
+                let c = E::Call { callee: E::Member { obj: base.bx(), prop: m, optional: true }.bx(), args, optional: false };
+                E::Call { callee: E::Member { obj: c.bx(), prop: m2, optional: self.t.chance(60) }.bx(), args: a2, optional: false }
+            }
+            // a?.m(args).p?.(x).m2()
+            9 if !self.o.avoid.opt_call_paren_callee => {
+                let m2 = self.method_name();
+                let a2 = self.args(d.min(1));
+                self.tag("opt-chain-two-calls");
+                let c = E::Call { callee: E::Member { obj: base.bx(), prop: m, optional: true }.bx(), args, optional: false };
+                let c2 = E::Call { callee: E::Member { obj: c.bx(), prop: p, optional: false }.bx(), args: a2, optional: true };
+                E::Call { callee: E::Member { obj: c2.bx(), prop: m2, optional: false }.bx(), args: vec![], optional: false }
+            }
             // a?.m(args)
             0 => E::Call { callee: E::Member { obj: base.bx(), prop: m, optional: true }.bx(), args, optional: false },
             // a?.p.m(args)
@@ -705,11 +748,28 @@ impl<'t, 'a> Gen<'t, 'a> {
             match self.t.weighted(&[5, 2, 1, 1]) {
                 0 => {
                     let inner = self.args(d);
-                    args.push(Arg { spread: false, e: E::Array(inner.into_iter().map(Some).collect()) });
+                    let mut elems: Vec<Option<Arg>> = inner.into_iter().map(Some).collect();
+                    if !self.o.exec && self.t.chance(25) {
+                        // an elision in the array passed to apply
+                        self.tag("apply-array-hole");
+                        let at = self.t.below(elems.len() + 1);
+                        elems.insert(at, None);
+                        if at + 1 == elems.len() {
+                            elems.push(Some(Arg { spread: false, e: self.ident() }));
+                        }
+                    }
+                    args.push(Arg { spread: false, e: E::Array(elems) });
                 }
                 1 => args.push(Arg { spread: false, e: self.ident() }),
                 2 => {}
-                _ => args.push(Arg { spread: true, e: self.ident() }),
+                _ => {
+                    // `apply(thisArg, ...spread)`: what "the call arguments" are is ill defined; static checks only
+                    if self.o.exec {
+                        args.push(Arg { spread: false, e: self.ident() })
+                    } else {
+                        args.push(Arg { spread: true, e: self.ident() })
+                    }
+                }
             }
             E::Call { callee: E::Member { obj: path.bx(), prop: "apply".into(), optional: false }.bx(), args, optional: false }
         }
@@ -1045,6 +1105,15 @@ impl<'t, 'a> Gen<'t, 'a> {
                 let body = self.body_stmt(d, sd, true);
                 self.scm().loop_depth -= 1;
                 self.scm().vars.pop();
+                if self.t.chance(100) {
+                    // the iterated expression is directly an (instrumentable) operation
+                    self.tag("for-head-direct");
+                    let direct = self.expr(d.min(3));
+                    if kind == "of" {
+                        return format!("for {}(const {} of {}) {}", await_kw, k, Self::arg_text(&direct), body);
+                    }
+                    return format!("for (const {} in {}) {}", k, direct.print(), body);
+                }
                 if kind == "of" {
                     format!("for {}(const {} of [{}, {}]) {}", await_kw, k, Self::arg_text(&a), Self::arg_text(&b), body)
                 } else {
@@ -1206,7 +1275,32 @@ impl<'t, 'a> Gen<'t, 'a> {
         let et = Self::arg_text(&e);
         let e2 = self.plus(d.min(2));
         let e2t = Self::arg_text(&e2);
-        match self.t.below(16) {
+        match self.t.below(21) {
+            20 => {
+                self.tag("reserved-ident");
+                self.tag("reserved:unreferenced-function-name");
+                format!("function {real}() {{ return 1; }}\nx = {e2t};")
+            }
+            18 => {
+                self.tag("reserved-ident");
+                self.tag("reserved:only-in-concise-arrow-body");
+                format!("x = {e2t};\ny = (() => {real});")
+            }
+            19 => {
+                self.tag("reserved-ident");
+                self.tag("reserved:only-in-concise-arrow-member");
+                format!("x = {e2t};\ny = (() => {real}.p ? 1 : 2);")
+            }
+            16 => {
+                self.tag("reserved-ident");
+                self.tag("reserved:tpl-with-literal-subst");
+                format!("x = `${{typeof {real}}}${{'lit'}}` + {e2t};")
+            }
+            17 => {
+                self.tag("reserved-ident");
+                self.tag("reserved:nested-function-parameter");
+                format!("function zz{k}({real}) {{ return {real} + {e2t}; }}\nx = zz{k}({et});")
+            }
             14 => {
                 self.tag("reserved-ident");
                 self.tag("reserved:only-in-arrow-default");
@@ -1610,6 +1704,14 @@ impl<'t, 'a> Gen<'t, 'a> {
             self.tag("top-level-code");
             let e = self.expr(2);
             src.push_str(&format!("var top1 = {};\n", Self::arg_text(&e)));
+        }
+        if let Some(prefix) = self.o.reserved_prefix.clone() {
+            if self.t.chance(40) {
+                // a top level function whose parameter has a reserved name (no enclosing block sees the parameter list)
+                self.tag("reserved-ident");
+                self.tag("reserved:top-level-function-parameter");
+                src.push_str(&format!("function topz(__datadog_{prefix}_0, q) {{ return q + q() + `${{q}}`; }}\n"));
+            }
         }
         let params: Vec<String> = ["a", "b", "c", "d", "e"].iter().map(|s| s.to_string()).collect();
         self.push_fn_scope(&params, entry == EntryKind::Async, entry == EntryKind::Generator, false);
